@@ -63,6 +63,11 @@ fn cfg_for(config: &str) -> GenCfg {
     "bu-replay-thread" => { c.replays = 0b0100; c.bottom_up = 60; c.all_roots_td = true; c.big = true; }
     "bu-mixed-replay" => { c.replays = 0b1011; c.bottom_up = 50; c.td_between = true; }
     "bu-crash" => { c.crash = true; c.bottom_up = 50; c.all_roots_td = true; }
+    // Long-lived sessions: external changes between two bottom-up builds of one session.
+    "bu-midsession" => { c.bottom_up = 80; c.td_between = true; c.in_session = true; c.mid_session = true; }
+    "bu-midsession-big" => { c.bottom_up = 90; c.all_roots_td = true; c.in_session = true; c.mid_session = true; c.big = true; }
+    "v-bu-midsession" => { c.class = Class::V; c.bottom_up = 70; c.td_between = true; c.in_session = true; c.mid_session = true; }
+    "bu-midsession-replay" => { c.bottom_up = 80; c.td_between = true; c.in_session = true; c.mid_session = true; c.replays = 0b1011; c.big = true; }
     // Sessions that are used further after a build in them aborted.
     "td-crash-samesession" => { c.crash = true; c.same_session = true; }
     "bu-crash-samesession" => { c.crash = true; c.same_session = true; c.bottom_up = 50; c.td_between = true; }
@@ -169,6 +174,7 @@ impl Engine for BuildEngine {
         if *keep_going { let mut s = scn.clone(); if let Step::TopDown { keep_going, .. } = &mut s.steps[i] { *keep_going = false; } c.push(s); }
       }
       if let Step::BottomUp { keep_going: true, .. } = st { let mut s = scn.clone(); if let Step::BottomUp { keep_going, .. } = &mut s.steps[i] { *keep_going = false; } c.push(s); }
+      if let Step::BottomUp { mid, .. } = st { for j in 0..mid.len() { let mut s = scn.clone(); if let Step::BottomUp { mid, .. } = &mut s.steps[i] { mid.remove(j); } c.push(s); } }
       if let Step::BottomUp { then_require, pre_require, shape, .. } = st {
         for j in 0..then_require.len() { let mut s = scn.clone(); if let Step::BottomUp { then_require, .. } = &mut s.steps[i] { then_require.remove(j); } c.push(s); }
         for j in 0..pre_require.len() { let mut s = scn.clone(); if let Step::BottomUp { pre_require, .. } = &mut s.steps[i] { pre_require.remove(j); } c.push(s); }
@@ -231,7 +237,7 @@ impl Engine for BuildEngine {
       if nr > 1 {
         let r = nr - 1;
         let used_by_ops = scn.program.tasks.iter().any(|td| refs(&td.ops, usize::MAX, r).1);
-        let used_by_steps = scn.steps.iter().any(|st| match st { Step::Change { res, .. } | Step::Touch { res } => *res == r, Step::BottomUp { report: Some(rep), .. } => rep.contains(&r), _ => false });
+        let used_by_steps = scn.steps.iter().any(|st| match st { Step::Change { res, .. } | Step::Touch { res } => *res == r, Step::BottomUp { report: Some(rep), .. } => rep.contains(&r), Step::BottomUp { mid, .. } => mid.iter().any(|(x, _)| *x == r), _ => false });
         let used_by_faults = scn.faults.values().any(|f| f.check_err_res.contains(&r));
         if !used_by_ops && !used_by_steps && !used_by_faults && scn.program.class != Class::V {
           let mut s = scn.clone();
